@@ -4,13 +4,13 @@ from __future__ import annotations
 
 import ast
 
-from sa.cfg import reachable, reaches, specialize
+from sa.cfg import reachable, reaches, specialize, test_atoms
 from sa.db import AnalysisError, FuncInfo, ancestors, bind_args, dotted, src, walk_local
 from sa.flow import defs_reaching, reaching_defs
 from sa.model import contains, enclosing, execute_impl_funcs, superstep_funcs
 from sa.variants import Variant, replace_once, sub_first, sub_once
 
-from .common import NotComparable, call_names, ordering_table, template_methods
+from .common import NotComparable, call_names, ordering_table, template_methods, vars_from_call
 
 ID = "C04"
 EXPLANATION = (
@@ -138,11 +138,25 @@ def run(ctx) -> None:
     rep.add("C04.R3", f"{stale.qname}:footprint", ok, stale.loc(), "staleness test consults self_producers, controlled_by, input_versions and node.inputs" if ok else f"staleness test no longer consults {sorted(need - foot)} (accumulator rule / gate exception broken)")
     # the self-producer skip applies to ungated nodes only and is a membership test
     skip_ok = False
-    for n in walk_local(stale.node):
-        if isinstance(n, ast.If) and any(isinstance(s, ast.Continue) for s in n.body):
-            t = src(n.test)
-            if "self_producers" in t and "not is_gated" in t.replace("not  ", "not ") and (" in " in t):
-                skip_ok = True
+    scfg = ctx.cfg(stale)
+    gated_vars = set(vars_from_call(db, stale, {"_is_controlled_by_gate"}))
+    member_atoms = set()
+    cmp_nodes = [n for n in scfg.nodes if n.kind == "test" and n.ast is not None and cur and cons and cur in src(n.ast) and cons in src(n.ast)]
+    for n in scfg.nodes:
+        if n.kind == "test" and n.ast is not None:
+            for a in test_atoms(n.ast):
+                if isinstance(a, ast.Compare) and len(a.ops) == 1 and isinstance(a.ops[0], (ast.In, ast.NotIn)) and "self_producers" in src(a.comparators[0]) and src(a.left).endswith(".name"):
+                    member_atoms.add((src(ast.Compare(a.left, [ast.In()], a.comparators))))
+    if gated_vars and member_atoms and cmp_nodes:
+        def live(g: bool, m: bool) -> bool:
+            val = {v: g for v in gated_vars}
+            for a in member_atoms:
+                val[a] = m
+                val[a.replace(" in ", " not in ", 1)] = not m
+            r = reachable(scfg.entry, specialize(val, scfg))
+            return any(c in r for c in cmp_nodes)
+
+        skip_ok = (not live(False, True)) and live(True, True) and live(False, False) and live(True, False)
     rep.add("C04.R3", f"{stale.qname}:accumulator-skip", skip_ok, stale.loc(), "self-produced inputs are skipped for ungated nodes only (membership in the producer set)" if skip_ok else "the accumulator skip is not 'ungated and node in self_producers[param]'")
     # monotone versions
     n_w = 0
